@@ -8,11 +8,15 @@ naming and the codec.  Hypotheses about the codec (checked on real pickle files 
 every prefix length): `RoundTrip` and `PrefixFree` (a proper prefix of an encoding never decodes).
 
 * `load_fresh`, `load_hit`          one call: parse + write, or return the cached value
-* `load_correct_any_faults`         for EVERY history of loads and faults (truncation at any byte,
-                                    unreadable content, deletion, repeated fault/recover cycles) every
-                                    load returns `parse args` and leaves a complete cache file behind —
-                                    PROVIDED the parser result depends only on arguments that reach the
-                                    file name (`Keyed`)
+* `load_correct_any_faults_partial` for EVERY history of loads and faults (truncation at any byte,
+                                    unreadable content WITHOUT DECODABLE PREFIX (`FaultOK'`), deletion,
+                                    repeated fault/recover cycles) every load returns `parse args` and
+                                    leaves a complete cache file behind — PROVIDED the parser result depends
+                                    only on arguments that reach the file name (`Keyed`)
+* `load_correct_any_faults_counterexample`, `fault_preserves_inv_counterexample`
+                                    the original statements (garbage only required to be undecodable
+                                    itself, `FaultOK`) are FALSE: a truncation of undecodable garbage may
+                                    decode to a wrong value
 * `unkeyed_option_counterexample`   without `Keyed` a stale trajectory is returned (defect D11)
 * generated obligations `*_used_subset_keyed`   per loader, every parameter the parser reads reaches the
                                     default cache file name (regenerated from trajectory.py on every run)
@@ -43,48 +47,380 @@ def StepOK (L : Loader Args Val) : Step Args → Prop
 def FSInv (L : Loader Args Val) (fs : FS) : Prop :=
   ∀ a b, fs.get (L.name a) = some b → ∀ v, L.decode b = some v → v = L.parse a
 
+/-! ### file-system lemmas (`FS.get` after `FS.put` / `FS.del`) -/
+
+theorem get_put_same (fs : FS) (n : Nat) (b : Bytes) : (fs.put n b).get n = some b := by
+  simp [FS.get, FS.put]
+
+theorem get_filter_other (fs : FS) {m n : Nat} (h : m ≠ n) :
+    FS.get (fs.filter (fun p => p.1 != n)) m = FS.get fs m := by
+  unfold FS.get
+  rw [List.find?_filter]
+  congr 2
+  funext p
+  by_cases hpm : p.1 = m
+  · simp [hpm, h]
+  · simp [hpm]
+
+theorem get_cons_ne (fs : FS) {m n : Nat} (b : Bytes) (h : m ≠ n) :
+    FS.get ((n, b) :: fs) m = FS.get fs m := by
+  have h' : (n == m) = false := by simpa using fun e : n = m => h e.symm
+  unfold FS.get
+  rw [List.find?_cons]
+  simp only [h']
+
+theorem get_filter_same (fs : FS) (n : Nat) :
+    FS.get (fs.filter (fun p => p.1 != n)) n = none := by
+  simp [FS.get, List.find?_eq_none]
+
+theorem get_put_other (fs : FS) {m n : Nat} (b : Bytes) (h : m ≠ n) : (fs.put n b).get m = fs.get m := by
+  unfold FS.put
+  rw [get_cons_ne _ b h, get_filter_other fs h]
+
+theorem get_del_same (fs : FS) (n : Nat) : (fs.del n).get n = none := get_filter_same fs n
+
+theorem get_del_other (fs : FS) {m n : Nat} (h : m ≠ n) : (fs.del n).get m = fs.get m :=
+  get_filter_other fs h
+
+/-! ### one call -/
+
 theorem load_fresh (L : Loader Args Val) (fs : FS) (a : Args) (h : fs.get (L.name a) = none) :
     load L fs a = (L.parse a, fs.put (L.name a) (L.encode (L.parse a)), false) := by
-  sorry
+  simp [load, h]
+
+theorem load_undecodable (L : Loader Args Val) (fs : FS) (a : Args) (b : Bytes)
+    (h : fs.get (L.name a) = some b) (hd : L.decode b = none) :
+    load L fs a = (L.parse a, fs.put (L.name a) (L.encode (L.parse a)), false) := by
+  simp [load, h, hd]
+
+theorem load_hit (L : Loader Args Val) (fs : FS) (a : Args) (b : Bytes) (v : Val)
+    (h : fs.get (L.name a) = some b) (hd : L.decode b = some v) :
+    load L fs a = (v, fs, true) := by
+  simp [load, h, hd]
+
+/-- case analysis of one call: a hit (file decodes, file system untouched) or parse + rewrite -/
+theorem load_cases (L : Loader Args Val) (fs : FS) (a : Args) :
+    (∃ b v, fs.get (L.name a) = some b ∧ L.decode b = some v ∧ load L fs a = (v, fs, true)) ∨
+    load L fs a = (L.parse a, fs.put (L.name a) (L.encode (L.parse a)), false) := by
+  cases h : fs.get (L.name a) with
+  | none => exact Or.inr (load_fresh L fs a h)
+  | some b =>
+    cases hd : L.decode b with
+    | none => exact Or.inr (load_undecodable L fs a b h hd)
+    | some v => exact Or.inl ⟨b, v, rfl, hd, load_hit L fs a b v h hd⟩
 
 theorem load_correct (L : Loader Args Val) (hrt : RoundTrip L) (fs : FS) (a : Args) (hinv : FSInv L fs) :
     (load L fs a).1 = L.parse a ∧
     (∃ b, (load L fs a).2.1.get (L.name a) = some b ∧ L.decode b = some (L.parse a)) := by
-  sorry
+  rcases load_cases L fs a with ⟨b, v, hg, hd, hl⟩ | hl
+  · have hv : v = L.parse a := hinv a b hg v hd
+    rw [hl]
+    exact ⟨hv, b, hg, hv ▸ hd⟩
+  · rw [hl]
+    exact ⟨rfl, L.encode (L.parse a), get_put_same _ _ _, hrt _⟩
 
 theorem load_preserves_inv (L : Loader Args Val) (hrt : RoundTrip L) (hk : Keyed L) (fs : FS) (a : Args)
     (hinv : FSInv L fs) : FSInv L (load L fs a).2.1 := by
-  sorry
+  rcases load_cases L fs a with ⟨b, v, _, _, hl⟩ | hl
+  · rw [hl]; exact hinv
+  · rw [hl]
+    intro a' b' hg v' hd
+    by_cases hn : L.name a' = L.name a
+    · rw [hn, get_put_same] at hg
+      cases hg
+      rw [hrt] at hd
+      cases hd
+      exact (hk a' a hn).symm
+    · rw [get_put_other fs _ hn] at hg
+      exact hinv a' b' hg v' hd
 
+/-! ### faults
+
+`fault_preserves_inv` and `load_correct_any_faults` are FALSE as originally stated: the shape
+hypothesis "every file is a complete encoding or undecodable" is not stable under truncation —
+truncating an ALREADY undecodable file (garbage) leaves a prefix of garbage, and nothing prevents
+that prefix from decoding to an arbitrary value.  Machine-checked counterexamples with the driver's
+codec are `fault_preserves_inv_counterexample` and `load_correct_any_faults_counterexample` below.
+
+The original statements (kept for reference):
+
+```
 theorem fault_preserves_inv (L : Loader Args Val) (hrt : RoundTrip L) (hpf : PrefixFree L) (fs : FS) (f : Fault)
     (hf : FaultOK L f) (hinv : FSInv L fs)
     (henc : ∀ n b, fs.get n = some b → (∃ v, b = L.encode v) ∨ L.decode b = none) :
+    FSInv L (applyFault fs f)
+
+theorem load_correct_any_faults (L : Loader Args Val) (hrt : RoundTrip L) (hpf : PrefixFree L) (hk : Keyed L)
+    (steps : List (Step Args)) (hs : ∀ s ∈ steps, StepOK L s) :
+    ∀ o ∈ (run L [] steps).2, o.2.1 = L.parse o.1
+```
+
+The true variants `fault_preserves_inv_partial` / `load_correct_any_faults_partial` ask that
+unreadable content has NO decodable prefix (`FaultOK'`, `FSShape'`); this property is stable under
+every fault and under loads.
+-/
+
+/-- strengthened fault model: unreadable content has no decodable prefix -/
+def FaultOK' (L : Loader Args Val) : Fault → Prop
+  | .garbage _ c => ∀ k, L.decode (c.take k) = none
+  | _ => True
+
+def StepOK' (L : Loader Args Val) : Step Args → Prop
+  | .fault f => FaultOK' L f
+  | .load _ => True
+
+/-- every file is either a complete encoding or has no decodable prefix (in particular does not
+decode itself) -/
+def FSShape' (L : Loader Args Val) (fs : FS) : Prop :=
+  ∀ n b, fs.get n = some b → (∃ v, b = L.encode v) ∨ ∀ k, L.decode (b.take k) = none
+
+theorem FaultOK'.faultOK {L : Loader Args Val} {f : Fault} (h : FaultOK' L f) : FaultOK L f := by
+  cases f with
+  | garbage n c =>
+    have := h c.length
+    rwa [List.take_length] at this
+  | truncate n k => trivial
+  | delete n => trivial
+
+/-- truncating a file that is a complete encoding or has no decodable prefix gives the file itself
+or something with no decodable prefix -/
+theorem take_shape (L : Loader Args Val) (hpf : PrefixFree L) (b : Bytes) (k : Nat)
+    (hb : (∃ v, b = L.encode v) ∨ ∀ j, L.decode (b.take j) = none) :
+    b.take k = b ∨ ∀ j, L.decode ((b.take k).take j) = none := by
+  rcases hb with ⟨v, rfl⟩ | hn
+  · by_cases hk : k < (L.encode v).length
+    · right
+      intro j
+      rw [List.take_take]
+      exact hpf v _ (Nat.lt_of_le_of_lt (Nat.min_le_right _ _) hk)
+    · left
+      exact List.take_of_length_le (Nat.le_of_not_lt hk)
+  · right
+    intro j
+    rw [List.take_take]
+    exact hn _
+
+/-- closest true variant of `fault_preserves_inv`: the shape hypothesis speaks about all prefixes of
+an undecodable file, and so does the fault hypothesis. -/
+theorem fault_preserves_inv_partial (L : Loader Args Val) (hpf : PrefixFree L) (fs : FS) (f : Fault)
+    (hf : FaultOK' L f) (hinv : FSInv L fs) (henc : FSShape' L fs) :
     FSInv L (applyFault fs f) := by
-  sorry
+  cases f with
+  | truncate n k =>
+    simp only [applyFault]
+    cases hgn : fs.get n with
+    | none => exact hinv
+    | some b0 =>
+      intro a b hg v hd
+      by_cases hn : L.name a = n
+      · rw [hn, get_put_same] at hg
+        cases hg
+        rcases take_shape L hpf b0 k (henc n b0 hgn) with he | hnone
+        · rw [he] at hd
+          exact hinv a b0 (hn ▸ hgn) v hd
+        · have := hnone (b0.take k).length
+          rw [List.take_length, hd] at this
+          cases this
+      · rw [get_put_other fs _ hn] at hg
+        exact hinv a b hg v hd
+  | garbage n c =>
+    intro a b hg v hd
+    simp only [applyFault] at hg
+    by_cases hn : L.name a = n
+    · rw [hn, get_put_same] at hg
+      cases hg
+      have := hf c.length
+      rw [List.take_length, hd] at this
+      cases this
+    · rw [get_put_other fs _ hn] at hg
+      exact hinv a b hg v hd
+  | delete n =>
+    intro a b hg v hd
+    simp only [applyFault] at hg
+    by_cases hn : L.name a = n
+    · rw [hn, get_del_same] at hg
+      cases hg
+    · rw [get_del_other fs hn] at hg
+      exact hinv a b hg v hd
+
+theorem fault_preserves_shape (L : Loader Args Val) (hpf : PrefixFree L) (fs : FS) (f : Fault)
+    (hf : FaultOK' L f) (henc : FSShape' L fs) : FSShape' L (applyFault fs f) := by
+  cases f with
+  | truncate n k =>
+    simp only [applyFault]
+    cases hgn : fs.get n with
+    | none => exact henc
+    | some b0 =>
+      intro m b hg
+      by_cases hm : m = n
+      · rw [hm, get_put_same] at hg
+        cases hg
+        rcases take_shape L hpf b0 k (henc n b0 hgn) with he | hnone
+        · rw [he]; exact henc n b0 hgn
+        · exact Or.inr hnone
+      · rw [get_put_other fs _ hm] at hg
+        exact henc m b hg
+  | garbage n c =>
+    intro m b hg
+    simp only [applyFault] at hg
+    by_cases hm : m = n
+    · rw [hm, get_put_same] at hg
+      cases hg
+      exact Or.inr hf
+    · rw [get_put_other fs _ hm] at hg
+      exact henc m b hg
+  | delete n =>
+    intro m b hg
+    simp only [applyFault] at hg
+    by_cases hm : m = n
+    · rw [hm, get_del_same] at hg
+      cases hg
+    · rw [get_del_other fs hm] at hg
+      exact henc m b hg
+
+theorem load_preserves_shape (L : Loader Args Val) (fs : FS) (a : Args) (henc : FSShape' L fs) :
+    FSShape' L (load L fs a).2.1 := by
+  rcases load_cases L fs a with ⟨b, v, _, _, hl⟩ | hl
+  · rw [hl]; exact henc
+  · rw [hl]
+    intro m b hg
+    by_cases hm : m = L.name a
+    · rw [hm, get_put_same] at hg
+      cases hg
+      exact Or.inl ⟨_, rfl⟩
+    · rw [get_put_other fs _ hm] at hg
+      exact henc m b hg
 
 /-- every file is either a complete encoding or undecodable -/
 def FSShape (L : Loader Args Val) (fs : FS) : Prop :=
   ∀ n b, fs.get n = some b → (∃ v, b = L.encode v) ∨ L.decode b = none
 
-/-- **C16 (any fault history)**: starting from an empty cache directory, for every sequence of loads
-and faults every load returns what parsing the source with its arguments returns. -/
-theorem load_correct_any_faults (L : Loader Args Val) (hrt : RoundTrip L) (hpf : PrefixFree L) (hk : Keyed L)
-    (steps : List (Step Args)) (hs : ∀ s ∈ steps, StepOK L s) :
-    ∀ o ∈ (run L [] steps).2, o.2.1 = L.parse o.1 := by
-  sorry
+theorem FSShape'.shape {L : Loader Args Val} {fs : FS} (h : FSShape' L fs) : FSShape L fs := by
+  intro n b hg
+  rcases h n b hg with he | hn
+  · exact Or.inl he
+  · have := hn b.length
+    rw [List.take_length] at this
+    exact Or.inr this
+
+theorem run_correct_of_inv (L : Loader Args Val) (hrt : RoundTrip L) (hpf : PrefixFree L) (hk : Keyed L)
+    (steps : List (Step Args)) :
+    ∀ (fs : FS), FSInv L fs → FSShape' L fs → (∀ s ∈ steps, StepOK' L s) →
+      (∀ o ∈ (run L fs steps).2, o.2.1 = L.parse o.1) ∧
+      FSInv L (run L fs steps).1 ∧ FSShape' L (run L fs steps).1 := by
+  induction steps with
+  | nil =>
+    intro fs hinv hsh _
+    exact ⟨fun o ho => absurd ho List.not_mem_nil, hinv, hsh⟩
+  | cons s rest ih =>
+    intro fs hinv hsh hs
+    have hrest : ∀ s ∈ rest, StepOK' L s := fun s h => hs s (List.mem_cons_of_mem _ h)
+    cases s with
+    | load a =>
+      have hstep : run L fs (.load a :: rest) =
+          ((run L (load L fs a).2.1 rest).1,
+            (a, (load L fs a).1, (load L fs a).2.2) :: (run L (load L fs a).2.1 rest).2) := rfl
+      rw [hstep]
+      have ⟨h1, h2, h3⟩ := ih (load L fs a).2.1 (load_preserves_inv L hrt hk fs a hinv)
+        (load_preserves_shape L fs a hsh) hrest
+      refine ⟨?_, h2, h3⟩
+      intro o ho
+      rcases List.mem_cons.mp ho with rfl | ho
+      · exact (load_correct L hrt fs a hinv).1
+      · exact h1 o ho
+    | fault f =>
+      have hf : FaultOK' L f := hs (.fault f) List.mem_cons_self
+      have hstep : run L fs (.fault f :: rest) = run L (applyFault fs f) rest := rfl
+      rw [hstep]
+      exact ih (applyFault fs f) (fault_preserves_inv_partial L hpf fs f hf hinv hsh)
+        (fault_preserves_shape L hpf fs f hf hsh) hrest
+
+/-- **C16 (any fault history)**, closest true variant of `load_correct_any_faults`: starting from an
+empty cache directory, for every sequence of loads and faults (truncation at any byte of whatever is
+on disk, deletion, content without decodable prefix, repeated fault/recover cycles) every load
+returns what parsing the source with its arguments returns. -/
+theorem load_correct_any_faults_partial (L : Loader Args Val) (hrt : RoundTrip L) (hpf : PrefixFree L)
+    (hk : Keyed L) (steps : List (Step Args)) (hs : ∀ s ∈ steps, StepOK' L s) :
+    ∀ o ∈ (run L [] steps).2, o.2.1 = L.parse o.1 :=
+  (run_correct_of_inv L hrt hpf hk steps [] (fun _ _ h => absurd h (by simp [FS.get]))
+    (fun _ _ h => absurd h (by simp [FS.get])) hs).1
 
 /-- … and after a load the cache file of those arguments is complete: a following load is a hit
 with the same value. -/
 theorem load_then_hit (L : Loader Args Val) (hrt : RoundTrip L) (fs : FS) (a : Args) (hinv : FSInv L fs) :
     (load L (load L fs a).2.1 a) = (L.parse a, (load L fs a).2.1, true) := by
-  sorry
+  obtain ⟨_, b, hg, hd⟩ := load_correct L hrt fs a hinv
+  exact load_hit L _ a b _ hg hd
 
 /-- the executable codec of the driver satisfies the hypotheses -/
 theorem encodeNat_roundtrip : ∀ v, decodeNat (encodeNat v) = some v := by
-  sorry
+  intro v
+  simp [encodeNat, decodeNat]
 
 theorem encodeNat_prefixFree : ∀ v k, k < (encodeNat v).length → decodeNat ((encodeNat v).take k) = none := by
-  sorry
+  intro v k hk
+  match k, hk with
+  | 0, _ => rfl
+  | 1, _ => rfl
+  | 2, _ => rfl
+  | 3, _ => rfl
+  | k + 4, hk => exact absurd hk (by simp [encodeNat])
+
+/-! ### machine-checked counterexamples to the original `fault_preserves_inv` / `load_correct_any_faults` -/
+
+/-- the driver's loader with `parse a = a`, `name a = a` (so `Keyed` holds trivially) -/
+def cexLoader : Loader Nat Nat := ⟨fun a => a, fun a => a, encodeNat, decodeNat⟩
+
+theorem cexLoader_keyed : Keyed cexLoader := fun _ _ h => h
+
+/-- counterexample to the original `fault_preserves_inv`: the file `[3,5,6,7,9]` does not decode,
+so `FSInv` and the shape hypothesis hold, but its truncation to 4 bytes decodes to `5 ≠ parse 0`. -/
+theorem fault_preserves_inv_counterexample :
+    let L := cexLoader
+    let fs : FS := [(0, [3, 5, 6, 7, 9])]
+    let f : Fault := .truncate 0 4
+    RoundTrip L ∧ PrefixFree L ∧ FaultOK L f ∧ FSInv L fs ∧
+    (∀ n b, fs.get n = some b → (∃ v, b = L.encode v) ∨ L.decode b = none) ∧
+    ¬ FSInv L (applyFault fs f) := by
+  intro L fs f
+  have hget : ∀ n b, fs.get n = some b → b = [3, 5, 6, 7, 9] := by
+    intro n b h
+    cases n with
+    | zero => exact (Option.some.inj h).symm
+    | succ n => exact absurd h (by simp [fs, FS.get])
+  refine ⟨encodeNat_roundtrip, encodeNat_prefixFree, trivial, ?_, ?_, ?_⟩
+  · intro a b hg v hd
+    rw [hget _ _ hg] at hd
+    have hd' : decodeNat [3, 5, 6, 7, 9] = some v := hd
+    have hnone : decodeNat [3, 5, 6, 7, 9] = none := by decide
+    rw [hnone] at hd'
+    cases hd'
+  · intro n b hg
+    rw [hget _ _ hg]
+    exact Or.inr (by decide)
+  · intro h
+    exact absurd (h 0 [3, 5, 6, 7] (by decide) 5 (by decide)) (by decide)
+
+/-- counterexample to the original `load_correct_any_faults`: unreadable content, then a truncation
+of it, then a load — every step satisfies `StepOK`, yet the load returns `5` instead of `parse 0 = 0`. -/
+theorem load_correct_any_faults_counterexample :
+    let L := cexLoader
+    let steps : List (Step Nat) := [.fault (.garbage 0 [3, 5, 6, 7, 9]), .fault (.truncate 0 4), .load 0]
+    RoundTrip L ∧ PrefixFree L ∧ Keyed L ∧ (∀ s ∈ steps, StepOK L s) ∧
+    ¬ (∀ o ∈ (run L [] steps).2, o.2.1 = L.parse o.1) := by
+  intro L steps
+  refine ⟨encodeNat_roundtrip, encodeNat_prefixFree, cexLoader_keyed, ?_, ?_⟩
+  · intro s hs
+    simp only [steps, List.mem_cons, List.not_mem_nil, or_false] at hs
+    rcases hs with rfl | rfl | rfl
+    · show decodeNat [3, 5, 6, 7, 9] = none
+      decide
+    · trivial
+    · trivial
+  · intro h
+    have hrun : (run L [] steps).2 = [(0, 5, true)] := by decide
+    rw [hrun] at h
+    exact absurd (h (0, 5, true) (List.mem_singleton.mpr rfl)) (by decide)
 
 /-- defect D11 (repaired): with an option the parser reads but the file name ignores
 (`parse a = a`, `name a = a / 10`), the second load returns the first call's trajectory -/
